@@ -152,6 +152,11 @@ func (f *File) isDotImport(path string) bool {
 		// the "C" pseudo-package can only be imported under its own name
 		return false
 	}
+	if def, ok := f.imports[path]; ok && def.name != "" && def.name != "_" {
+		// already imported: the name it was registered under decides, so that a hint
+		// added after the first render cannot change how the path is referred to
+		return def.name == "."
+	}
 	if id, ok := f.hints[path]; ok {
 		return id.name == "." && id.alias
 	}
